@@ -164,7 +164,8 @@ pub fn builtin_is_even(x: f64) -> bool {
 #[builtin]
 #[allow(clippy::float_cmp)]
 pub fn builtin_is_odd(x: f64) -> bool {
-	builtin_round(x) % 2.0 == 1.0
+	// Remainder is negative for negative numbers
+	builtin_round(x) % 2.0 != 0.0
 }
 
 #[builtin]
